@@ -7,6 +7,7 @@ import PcVerif.Lemmas.SccRowLemmas
 import PcVerif.Lemmas.SccFileLemmas
 import PcVerif.Lemmas.PopOnStore
 import PcVerif.Lemmas.PopOnTimes
+import PcVerif.Lemmas.PopOnWriterTimes
 namespace PcVerif.Props.C17
 open PcVerif PcVerif.Scc PcVerif.SccW
 
@@ -171,6 +172,34 @@ theorem shown_within_three_frames (lines : List (List Char)) (start : Rat)
     (h : (((rowsWords (16 - lines.length) lines).length : Rat) + 8) * SccW.frameUs ≤ start) :
     2 * SccW.frameUs ≤ start - shownAt lines start ∧ start - shownAt lines start < 3 * SccW.frameUs :=
   SccW.shown_within_three_frames lines start h
+
+/-- **C17 (write, then read: every caption with its start and its end).** for every caption set of 1–15 tidy rows of basic
+    characters per caption whose cues are "spaced far enough apart to be transmitted" (`WellSpaced`: each start leaves
+    `words + 8` frames of room, no cue ends before it starts, and each cue is sent at least four frames after the previous one
+    ends): the reader model run on the writer model's file stores exactly the input captions, in order — rows as lines,
+    first-row position — each starting at `shownAt` (two to three frames before its start, `shown_within_three_frames`) and
+    ending at `lineInstant end` (less than one frame before its end, `written_stamps_monotone`); the pre-roll pass keeps every
+    clearing line, no caption is joined to its neighbour, retimed or given the default four seconds -/
+theorem written_file_start_end (caps : List (List Str × Rat × Rat)) (hg : ∀ c ∈ caps, GoodLines c.1) (hsp : WellSpaced none caps) :
+    (run (write caps) 0).S.stash = caps.map (fun c => cap4 (c.1, shownAt c.1 c.2.1, lineInstant c.2.2)) :=
+  SccW.written_file_start_end caps hg hsp
+
+/-- non-vacuity: two one-row captions at 1–3 s and 5–6 s are `WellSpaced` -/
+example : WellSpaced none [(["Hi".toList], (1000000 : Rat), (3000000 : Rat)), (["yo".toList], 5000000, 6000000)] := by
+  have h1 : (rowsWords (16 - ["Hi".toList].length) ["Hi".toList]).length = 3 := by decide +kernel
+  have h2 : (rowsWords (16 - ["yo".toList].length) ["yo".toList]).length = 3 := by decide +kernel
+  have hF := SccW.frameUs_value
+  refine ⟨?_, by norm_num, ?_, ?_, by norm_num, ?_, trivial⟩
+  · show (((rowsWords (16 - ["Hi".toList].length) ["Hi".toList]).length : Rat) + 8) * SccW.frameUs ≤ 1000000
+    rw [h1, hF]; norm_num
+  · intro pe h; simp at h
+  · show (((rowsWords (16 - ["yo".toList].length) ["yo".toList]).length : Rat) + 8) * SccW.frameUs ≤ 5000000
+    rw [h2, hF]; norm_num
+  · intro pe hpe
+    simp only [Option.some.injEq] at hpe
+    subst hpe
+    show (3000000 : Rat) + 4 * SccW.frameUs ≤ 5000000 - (((rowsWords (16 - ["yo".toList].length) ["yo".toList]).length : Rat) + 8) * SccW.frameUs
+    rw [h2, hF]; norm_num
 
 /-- non-vacuity: a two-row caption of ordinary characters meets the hypotheses of `written_file_restored` -/
 example : GoodLines ["Hello,".toList, "World 42!".toList] := by
